@@ -2,6 +2,7 @@ package main
 
 import (
 	"bytes"
+	"os/exec"
 	"encoding/json"
 	"fmt"
 	"github.com/zmap/zlint/v3/formattedoutput"
@@ -67,6 +68,12 @@ func roundTrip(id string, rs *zlint.ResultSet) ev.M {
 func listing(id string, r lint.Registry) ev.M {
 	var buf bytes.Buffer
 	r.WriteJSON(&buf)
+	return listingOf(id, r, buf.Bytes())
+}
+
+// listingOf judges a listing (from WriteJSON, or printed by the tool's -list-lints-json) against the registry it describes.
+func listingOf(id string, r lint.Registry, text []byte) ev.M {
+	buf := bytes.NewBuffer(text)
 	registered := len(r.Names())
 	lines := 0
 	allDecode, allMatch, allKnown := true, true, true
@@ -211,9 +218,65 @@ func cmdCodec(args []string) {
 			w.Emit(listing(fmt.Sprintf("filtered%d", i), r))
 		}
 	}
+	// ---- the tool's own JSON: what it prints for an object must decode to what the library computed (details with awkward
+	// text included), and its -list-lints-json must be the listing of the registry.  The driver registered mock lints above, which
+	// the tool does not have, so the tool's listing is compared with a registry filtered back to the tool's lints.
+	cliRuns, cliAwkward := 0, 0
+	if cli := os.Getenv("VERIF_CLI"); cli != "" {
+		work := out("cliwork")
+		os.MkdirAll(work, 0o755)
+		hows := []string{"der-file", "der-stdin", "pem-file"}
+		var toolReg lint.Registry = g
+		if own, err2 := g.Filter(lint.FilterOptions{NameFilter: regexp.MustCompile("^[ewn]_(verif_|status_)")}); err2 == nil && len(own.Names()) > 0 {
+			if tr, err3 := g.Filter(lint.FilterOptions{ExcludeNames: own.Names()}); err3 == nil {
+				toolReg = tr
+			}
+		}
+		hs := hostileDetailObjs(c)
+		k := 0
+		for _, o := range hs {
+			for _, how := range hows {
+				if e := cliJSON(cli, work, toolReg, fromObj(o), how, k); e != nil {
+					w.Emit(ev.M(e))
+					cliRuns++
+					cliAwkward += e["awkward"].(int)
+				}
+				k++
+			}
+		}
+		step := 40
+		if tier == "thorough" {
+			step = 6
+		}
+		for i := int(seed) % step; i < len(objs); i += step {
+			if objs[i].Kind == "ocsp" {
+				continue
+			}
+			how := hows[(i/step)%3]
+			if objs[i].Kind == "crl" {
+				how = "pem-file"
+			}
+			if e := cliJSON(cli, work, toolReg, objs[i], how, k); e != nil {
+				w.Emit(ev.M(e))
+				cliRuns++
+			}
+			k++
+		}
+		if outb, err := exec.Command(cli, "-list-lints-json").Output(); err == nil {
+			// (the listing is taken after the driver registered its late mock lints: filter them out again)
+			tool := toolReg
+			if own, err2 := g.Filter(lint.FilterOptions{NameFilter: regexp.MustCompile("^[ewn]_(verif_|status_)")}); err2 == nil && len(own.Names()) > 0 {
+				if tr, err3 := g.Filter(lint.FilterOptions{ExcludeNames: own.Names()}); err3 == nil {
+					tool = tr
+				}
+			}
+			w.Emit(listingOf("tool -list-lints-json", tool, outb))
+		}
+		os.RemoveAll(work)
+	}
 	total := w.N
 	w.Close()
 	_ = reflect.DeepEqual
-	ev.WriteJSON(out("summary.json"), ev.M{"events": total, "roundtrips": n + 1, "nontrivial": nontriv, "tokens": len(tokens),
+	ev.WriteJSON(out("summary.json"), ev.M{"events": total, "roundtrips": n + 1, "nontrivial": nontriv, "tokens": len(tokens), "cli_runs": cliRuns, "cli_awkward_details": cliAwkward,
 		"sample": ev.M{"ev": "Decode", "token": "warning", "form": "string"}})
 }
